@@ -12,6 +12,7 @@ From RPCX Require XClient.FailMode XClient.Multi XClient.Discovery.
 From RPCX Require Server.Dispatch.
 From RPCX Require Pool.Pool.
 From RPCX Require Server.Ingress.
+From RPCX Require Server.Shutdown.
 Extraction Language OCaml.
 Extraction "model.ml"
   RoundRobin.rr_new RoundRobin.rr_run
@@ -31,4 +32,5 @@ Extraction "model.ml"
   Discovery.drun Discovery.drain Discovery.filter_servers
   Dispatch.crun Dispatch.cinit
   Pool.find_get Pool.find_put Pool.class_size Pool.last_class
-  Ingress.serve.
+  Ingress.serve
+  Shutdown.step Shutdown.init Shutdown.run Shutdown.writes Shutdown.is_open.
